@@ -74,17 +74,25 @@ Theorem swap_guard_Sabre_shortest_path_routing : forall n G path s,
 Proof. exact swap_guard_Sabre_shortest_path. Qed.
 Print Assumptions swap_guard_Sabre_shortest_path_routing.
 
-(* the full-strength statement "every swap ShortestPaths._add_swaps proposes along a path of the
-   graph meets the edge guard" is FALSE of the faithful model: witness line 0-1-2-3-4-5,
-   path [0..5], meeting point 2 -> physical swaps (1,0) (2,0) (4,5) (3,5) *)
-Theorem swap_guard_ShortestPaths_refuted :
+(* ShortestPaths._add_swaps (current source: consecutive path nodes are exchanged): every swap it
+   proposes along a path of the graph meets the edge guard, for every path and meeting point *)
+Theorem swap_guard_ShortestPaths : forall n G path mp s,
+  graph_ok n G -> wf_maps n (l2p s) (p2l s) -> is_path G path = true ->
+  exists s', apply_swaps n (guard_edge G) s (add_swaps_ops path mp) = Some s'.
+Proof. exact swap_guard_ShortestPaths_add_swaps. Qed.
+Print Assumptions swap_guard_ShortestPaths.
+
+(* HISTORICAL lemma, not about the current source: the formula used before the repair of qibo
+   (swap (f, forward[0]) instead of consecutive nodes) proposed swaps off the edges; witness
+   line 0-1-2-3-4-5, path [0..5], meeting point 2 -> physical swaps (1,0) (2,0) (4,5) (3,5) *)
+Theorem historical_add_swaps_prefix_formula_leaves_edges :
   exists n G path mp s,
     graph_ok n G /\ wf_maps n (l2p s) (p2l s) /\ is_path G path = true /\ mp < length path - 1 /\
-    apply_swaps n no_guard s (add_swaps_ops path mp) <> None /\
-    apply_swaps n (guard_edge G) s (add_swaps_ops path mp) = None.
+    apply_swaps n no_guard s (add_swaps_prefix_formula_ops path mp) <> None /\
+    apply_swaps n (guard_edge G) s (add_swaps_prefix_formula_ops path mp) = None.
 Proof.
   exists 6, line6, [0;1;2;3;4;5], 2, (init 6 []).
-  destruct swap_guard_ShortestPaths_refuted_witness as (P & A & B).
+  destruct add_swaps_prefix_formula_witness as (P & A & B).
   split; [|split; [|split; [|split; [|split]]]].
   - intros e0 He. cbn in He. repeat (destruct He as [<-|He]; [cbn; lia|]). destruct He.
   - apply wf_maps_init.
@@ -93,14 +101,7 @@ Proof.
   - intro E. rewrite E in A. discriminate.
   - exact B.
 Qed.
-Print Assumptions swap_guard_ShortestPaths_refuted.
-
-(* the repaired _add_swaps (swap consecutive path nodes) meets the guard on every path *)
-Theorem swap_guard_ShortestPaths_repaired : forall n G path mp s,
-  graph_ok n G -> wf_maps n (l2p s) (p2l s) -> is_path G path = true ->
-  exists s', apply_swaps n (guard_edge G) s (add_swaps_fixed_ops path mp) = Some s'.
-Proof. exact swap_guard_ShortestPaths_fixed. Qed.
-Print Assumptions swap_guard_ShortestPaths_repaired.
+Print Assumptions historical_add_swaps_prefix_formula_leaves_edges.
 
 (* 7. the reorder checker run on every block decomposition is sound *)
 Theorem reorder_check_sound : forall c c',
